@@ -1,3 +1,157 @@
-From ZV Require Import Lib.Base Model.SearchCore.
-Theorem C01_placeholder : True. Proof. exact I. Qed.
-Print Assumptions C01_placeholder.
+(** C01 — search returns exactly the documents the query matches.  Property theorems over Model/SearchCore.v
+    (model of index/eval.go, matchtree.go, indexdata.go, matchiter.go, hititer.go at /repo HEAD incl. the word fast-path
+    fix commits 260937d d7a2c44 cae2348). *)
+From ZV Require Import Lib.Base Model.SearchCore Proofs.SearchCoreText Proofs.SearchCoreTree Proofs.SearchCoreLoop
+  Proofs.SearchCoreSelect Proofs.SearchCoreBuild Proofs.SearchCoreSimp Proofs.SearchCoreWord Proofs.SearchCoreTop.
+From Coq Require Import ZifyBool ZifyN.
+
+(** 1. Verified trigram candidates are exactly the occurrences: for every list of texts, every pattern of >= 3 runes,
+    every choice a <= b of the two selected trigrams (any frequencies), every document k, case-sensitive or not
+    (case-insensitive completeness under [agree]: lower-casing and SimpleFold orbits agree on the runes involved). *)
+Theorem C01_substring_candidates_exact :
+  forall (tolower : N -> N) (orbit : N -> list N) (ts : list (list N)) (cs : bool) (pat : list N) (a b k : nat),
+  agree tolower orbit -> 3 <= length pat -> a <= b -> b + 3 <= length pat -> k < length ts ->
+  filter (occurs_at tolower cs pat (nth k ts []))
+         (cands_of ts (hits_of orbit (all_tris ts) cs pat a b) a (length pat - a) k)
+  = occ_offsets tolower cs pat (nth k ts []).
+Proof. exact substring_candidates_exact. Qed.
+Print Assumptions C01_substring_candidates_exact.
+
+(** 2. findSelectiveNgrams always selects two valid trigram indexes, whatever the frequencies are. *)
+Theorem C01_selection_valid : forall (p : list N) (freqs : list N), 3 <= length p ->
+  length freqs = length (sort_offs (pat_tris p)) ->
+  let '(a, b) := select_idx (sort_offs (pat_tris p)) freqs in a <= b /\ b + 3 <= length p.
+Proof. exact select_idx_valid. Qed.
+Print Assumptions C01_selection_valid.
+
+(** 3. nextDoc is a lower bound: in every reachable iterator state (tvalid last), no node kind skips a later document
+    on which the tree holds (and = max, or = min, not = 0, substring = file of the first remaining hit, ...). *)
+Theorem C01_docit_lower_bound :
+  forall (re_match : N -> list N -> bool) (tolower : N -> N) (orbit : N -> list N) (c : corpus),
+  agree tolower orbit ->
+  forall (last : option nat) (k : nat) (t : mt),
+  lt_last last k -> k < ndocs c -> tvalid tolower orbit c last t ->
+  sem re_match tolower c k t = true -> nextDoc c t <= k.
+Proof. exact nextDoc_lower_bound. Qed.
+Print Assumptions C01_docit_lower_bound.
+
+(** 4. The cost-staged three-valued evaluation decides (the log.Panicf "did not decide" is unreachable) and accepts
+    exactly the documents on which the tree holds; prepare re-establishes the iterator invariant. *)
+Theorem C01_cost_staging_decides :
+  forall (re_match : N -> list N -> bool) (tolower : N -> N) (orbit : N -> list N) (c : corpus),
+  agree tolower orbit ->
+  forall (last : option nat) (k : nat) (t : mt),
+  lt_last last k -> k < ndocs c -> tvalid tolower orbit c last t ->
+  accept re_match tolower c k (prepare c k t) = sem re_match tolower c k t /\
+  run3 re_match tolower c 3 k (prepare c k t) <> Higher.
+Proof. exact accept_sem. Qed.
+Print Assumptions C01_cost_staging_decides.
+
+(** 5. The document loop: from any reachable state it returns exactly the live documents behind [last] on which the
+    tree holds, in order -- the nextDoc skipping and the tombstone scan lose nothing and add nothing. *)
+Theorem C01_loop_exact :
+  forall (re_match : N -> list N -> bool) (tolower : N -> N) (orbit : N -> list N) (c : corpus),
+  agree tolower orbit ->
+  forall (fuel : nat) (t : mt) (last : option nat),
+  tvalid tolower orbit c last t -> cursor_next last <= ndocs c -> ndocs c - cursor_next last < fuel ->
+  loop re_match tolower c fuel t last =
+  filter (fun k => live_at c k && sem re_match tolower c k t) (seq (cursor_next last) (ndocs c - cursor_next last)).
+Proof. exact loop_exact. Qed.
+Print Assumptions C01_loop_exact.
+
+(** 6. pruneMatchTree preserves the meaning on every document; nil means no document matches. *)
+Theorem C01_prune_equiv :
+  forall (re_match : N -> list N -> bool) (tolower : N -> N) (orbit : N -> list N) (c : corpus) (t : mt),
+  tvalid tolower orbit c None t -> shape_ok t ->
+  match prune t with
+  | Some t' => tvalid tolower orbit c None t' /\ shape_ok t' /\
+               (forall k, k < ndocs c -> sem re_match tolower c k t' = sem re_match tolower c k t) /\
+               (line_shape t -> line_shape t' /\ content_sleaf t' = content_sleaf t)
+  | None => forall k, k < ndocs c -> sem re_match tolower c k t = false
+  end.
+Proof. exact prune_spec. Qed.
+Print Assumptions C01_prune_equiv.
+
+(** 7. The word-boundary fast path (after the fixes) = the reference semantics of \bLIT\b, for all texts and literals. *)
+Theorem C01_word_fastpath_exact : forall (tolower : N -> N) (w t : list N), 0 < length w ->
+  word_found tolower w t = word_ref tolower w t.
+Proof. exact word_found_ref. Qed.
+Print Assumptions C01_word_fastpath_exact.
+
+(** 8. TOP LEVEL.  Full statement aimed at: for every corpus and every query,
+      search c q = filter (fun k => live k && eval q (doc k)) (all document ids)
+    with the regexp atoms given by a regexp semantics.  Proved here (_partial): the regexp ENGINE is external and the
+    soundness of the trigram distillation of each regexp atom is not derived from a regexp semantics but assumed, in
+    the form of the decidable obligation [re_okb] (engine matches => distilled literal tree holds; equivalence where
+    the distillation claims it; engine verdict on \bLIT\b = reference word semantics), which the correspondence run
+    evaluates on every generated case.  For queries without regexp atoms the obligation is [true] by computation.
+    Symbol queries are not modelled.  Hypotheses: [agree] (case folding vs lower-casing, cf. C08) and that a
+    frequency of 0 is only reported for trigrams without postings. *)
+Theorem C01_search_exact_partial :
+  forall (re_match : N -> list N -> bool) (tolower : N -> N) (orbit : N -> list N) (c : corpus)
+         (freq : bool -> bool -> tri -> N) (q : Q),
+  agree tolower orbit ->
+  (forall fn cs g, freq fn cs g = 0%N -> post orbit (ix_tris c fn) cs g = []) ->
+  re_okb re_match tolower orbit c freq (expand (simp c q)) = true ->
+  search re_match tolower orbit c freq q = spec_search re_match tolower c q.
+Proof. intros. apply search_exact_checked; assumption. Qed.
+Print Assumptions C01_search_exact_partial.
+
+(** the frequency function used by the correspondence runner satisfies the frequency hypothesis *)
+Lemma count_freq_sound : forall orbit c fn cs g, count_freq orbit c fn cs g = 0%N -> post orbit (ix_tris c fn) cs g = [].
+Proof.
+  intros orbit c fn cs g H. unfold count_freq in H. unfold ix_tris.
+  destruct (post orbit (all_tris (texts c fn)) cs g); [reflexivity|]. simpl in H. lia.
+Qed.
+Theorem C01_search_exact_runner_partial :
+  forall (re_match : N -> list N -> bool) (tolower : N -> N) (orbit : N -> list N) (c : corpus) (q : Q),
+  agree tolower orbit ->
+  re_okb re_match tolower orbit c (count_freq orbit c) (expand (simp c q)) = true ->
+  search re_match tolower orbit c (count_freq orbit c) q = spec_search re_match tolower c q.
+Proof. intros. apply search_exact_checked; auto. intros. apply count_freq_sound. assumption. Qed.
+Print Assumptions C01_search_exact_runner_partial.
+
+(* ------------------------------------------------------------------ non-vacuity *)
+Definition alower (x : N) : N := if ((65 <=? x) && (x <=? 90))%N then (x + 32)%N else x.
+Definition aorbit (x : N) : list N :=
+  if ((65 <=? x) && (x <=? 90))%N then [x; (x + 32)%N]
+  else if ((97 <=? x) && (x <=? 122))%N then [x; (x - 32)%N] else [x].
+Example agree_ascii : agree alower aorbit.
+Proof.
+  intros c c' H. unfold alower, aorbit in *.
+  destruct ((65 <=? c) && (c <=? 90))%N eqn:E1; destruct ((65 <=? c') && (c' <=? 90))%N eqn:E2;
+    destruct ((97 <=? c) && (c <=? 122))%N eqn:E3; simpl; lia.
+Qed.
+
+Definition ex_repo (nm : list N) (tomb : bool) : repo :=
+  {| r_name := nm; r_id := 7; r_tomb := tomb; r_ftombs := [[120; 46; 103; 111]]%N; r_branches := [[109]]%N; r_rawmask := 0 |}.
+Definition ex_doc (nm ct : list N) (rp : nat) : doc := {| d_name := nm; d_content := ct; d_mask := 1; d_repo := rp; d_lang := 0 |}.
+(** docs: "a.go":"xabcabx"  "b.go":"ABCA" (repo 0);  "c.go":"abca" (tombstoned repo 1);  "x.go":"abca" (file tombstone); "d":"ab" *)
+Definition ex_corpus : corpus :=
+  {| c_repos := [ex_repo [114]%N false; ex_repo [115]%N true];
+     c_docs := [ex_doc [97; 46; 103; 111]%N [120; 97; 98; 99; 97; 98; 120]%N 0; ex_doc [98; 46; 103; 111]%N [65; 66; 67; 65]%N 0;
+                ex_doc [99; 46; 103; 111]%N [97; 98; 99; 97]%N 1; ex_doc [120; 46; 103; 111]%N [97; 98; 99; 97]%N 0;
+                ex_doc [100]%N [97; 98]%N 0];
+     c_langs := [] |}.
+(** (content:"abca" case-insensitive  or  file:"d")  and not content:"zz" *)
+Definition ex_query : Q :=
+  QAnd [QOr [QSubstr [97; 98; 99; 97]%N false false true; QSubstr [100]%N true true false]; QNot (QSubstr [122; 122]%N true false true)].
+Definition ex_re (_ : N) (_ : list N) : bool := false.
+Example ex_hyp : re_okb ex_re alower aorbit ex_corpus (count_freq aorbit ex_corpus) (expand (simp ex_corpus ex_query)) = true.
+Proof. vm_compute. reflexivity. Qed.
+Example ex_search : search ex_re alower aorbit ex_corpus (count_freq aorbit ex_corpus) ex_query = [0; 1; 4].
+Proof. vm_compute. reflexivity. Qed.
+Example ex_spec : spec_search ex_re alower ex_corpus ex_query = [0; 1; 4].
+Proof. vm_compute. reflexivity. Qed.
+(** candidates: pattern "abca" (trigrams abc@0, bca@1) in texts ["xabcabx"; "abca"; "ab"], document 0 *)
+Definition ex_ts : list (list N) := [[120; 97; 98; 99; 97; 98; 120]; [97; 98; 99; 97]; [97; 98]]%N.
+Example ex_cands : filter (occurs_at alower true [97; 98; 99; 97]%N (nth 0 ex_ts []))
+    (cands_of ex_ts (hits_of aorbit (all_tris ex_ts) true [97; 98; 99; 97]%N 0 1) 0 4 0) = [1].
+Proof. vm_compute. reflexivity. Qed.
+(** word fast path: "xa a a" contains \ba a\b at offset 3 only (overlapping a rejected occurrence at 1) *)
+Example ex_word : word_scan alower [97; 32; 97]%N [120; 97; 32; 97; 32; 97]%N 0 7 = [3] /\
+                  word_ref alower [97; 32; 97]%N [120; 97; 32; 97; 32; 97]%N = true.
+Proof. vm_compute. auto. Qed.
+(** selection: pattern of 6 runes, frequencies favouring the overlapping trigrams 1 and 2 -> shifted apart *)
+Example ex_select : select_idx (sort_offs (pat_tris [97; 98; 99; 100; 101; 102]%N)) [9; 1; 1; 9]%N = (0, 3).
+Proof. vm_compute. reflexivity. Qed.
